@@ -1,0 +1,32 @@
+//go:build verif
+
+package server
+
+// Contracts for the verification machinery in /verif (comment-only; never compiled without -tags verif).
+
+//@ spec func admissible(m, l) = m.locked == 0 || (m.locked <= l.command.Count && m.locked <= m.currentLock.command.Count)
+
+//@ func (*LockDB).doLock
+//@   requires lockManager != nil && lock != nil && lock.command != nil
+//@   requires implies(lockManager.locked != 0, lockManager.currentLock != nil && lockManager.currentLock.command != nil)
+//@   ensures C01.admit: implies(result, admissible(lockManager, lock))
+//@   modifies nothing
+
+// ---- C12: log-position order used by the election (server/arbiter.go) ----
+//@ spec func le32(a, o) = a[o] + a[o+1]*256 + a[o+2]*65536 + a[o+3]*16777216
+//@ spec func le64(a, o) = le32(a, o) + le32(a, o+4)*4294967296
+//@ spec func aofIdx(a) = le32(a, 4)
+//@ spec func aofOff(a) = le32(a, 0)
+//@ spec func aofTime(a) = le64(a, 8)
+//@ spec func idxDelta(a, b) = (aofIdx(a) - aofIdx(b)) % 4294967296
+
+//@ func (*ArbiterManager).CompareAofId
+//@   ensures C12.order.range: result == -1 || result == 0 || result == 1
+//@   ensures C12.order.eq: iff(result == 0, a == b)
+//@   ensures C12.order.index-newer: implies(idxDelta(a, b) >= 1 && idxDelta(a, b) <= 0x7ffffffe, result == 1)
+//@   ensures C12.order.index-older: implies(idxDelta(b, a) >= 1 && idxDelta(b, a) <= 0x7ffffffe, result == -1)
+//@   ensures C12.order.offset: implies(aofIdx(a) == aofIdx(b) && aofOff(a) > aofOff(b), result == 1)
+//@   ensures C12.order.offset-older: implies(aofIdx(a) == aofIdx(b) && aofOff(a) < aofOff(b), result == -1)
+//@   ensures C12.order.time: implies(aofIdx(a) == aofIdx(b) && aofOff(a) == aofOff(b) && aofTime(a) > aofTime(b), result == 1)
+//@   ensures C12.order.time-older: implies(aofIdx(a) == aofIdx(b) && aofOff(a) == aofOff(b) && aofTime(a) < aofTime(b), result == -1)
+//@   modifies nothing
